@@ -105,6 +105,19 @@ def run(repo: Repo, tier: str, res: CheckResult, seed: int = 0) -> None:
                 n_groups += group_findings(repo, res, "C06", ci, meth, role, strict, eng)
     res.count("SIB.mode-sibling-groups", n_groups, 12)
     swallow_rule(repo, R, res)
+    # ALL mode must visit every independent leaf: the error DISABLE raises first (it evaluates value before key in
+    # `result[key_loader(k)] = value_loader(v)`) has to be among the collected ones (shared rule with C05)
+    from . import c05 as _c05
+    sub = CheckResult("C05")
+    _c05.trail_pairing(repo, R, sub)
+    res.evaluated("sib:all-visits-every-leaf", True)
+    for f in sub.findings:
+        if f.rule == "ALL.skips-independent-leaf":
+            res.add(Finding("C06", "SIB.all-mode-skips-leaf", f.file, f.qualname, f.construct,
+                            "debug_trail=ALL skips an element loader after a sibling of the same item failed, DISABLE and FIRST "
+                            "apply it: for an item whose parts are both invalid the error the other modes raise is not among "
+                            "the errors ALL collects (" + f.message[:200] + ")", f.line))
+    unexpected_flag_monotone(repo, res)
     # generated programs
     from .. import genprog
     genprog.c06_checks(repo, tier, res, seed)
@@ -152,3 +165,45 @@ def swallow_rule(repo: Repo, R: Resolver, res: CheckResult) -> None:
                             "the DISABLE/FIRST variants propagate the exception", getattr(node, "lineno", fn.lineno)))
     res.count("SWALLOW.closures-with-broad-handler", n, 8)
     res.coverage["broad_handlers"] = n_handlers
+
+
+def unexpected_flag_monotone(repo: Repo, res: CheckResult) -> None:
+    """ALL-mode loaders remember in a flag that a non-LoadError was collected and then raise a plain exception group instead
+    of an AggregateLoadError (a LoadError, which an enclosing Union or model treats as "this case does not fit"). The flag
+    must be monotone: inside the loop it may only be set to the constant True. `flag = not isinstance(e, LoadError)` lets a
+    later LoadError clear it, the unexpected error is then delivered as a LoadError and ALL accepts (through the next union
+    case) what DISABLE and FIRST reject with the unexpected exception."""
+    n = 0
+    for m in repo.modules.values():
+        if "/morphing/" not in m.rel:
+            continue
+        for fn in [f for f in ast.walk(m.tree) if isinstance(f, ast.FunctionDef)]:
+            inits = {t.id for st in ast.walk(fn) if isinstance(st, ast.Assign) and isinstance(st.value, ast.Constant) and st.value.value is False
+                     for t in st.targets if isinstance(t, ast.Name)}
+            tested = {x.id for i in ast.walk(fn) if isinstance(i, ast.If) for x in ast.walk(i.test) if isinstance(x, ast.Name)}
+            flags = {f for f in inits & tested if "unexpected" in f or "error" in f}
+            for flag in flags:
+                stores = [st for st in ast.walk(fn) if isinstance(st, (ast.Assign, ast.AugAssign, ast.AnnAssign))
+                          and any(isinstance(t, ast.Name) and t.id == flag for t in (st.targets if isinstance(st, ast.Assign) else [st.target]))]
+                in_handlers = [st for st in stores if m.enclosing_function(st) is fn
+                               and any(isinstance(p, ast.ExceptHandler) for p in _ancestors(m, st, fn))]
+                if not in_handlers:
+                    continue
+                n += 1
+                res.evaluated(f"flag-monotone:{m.rel}:{m.qualname(fn)}:{flag}", True)
+                for st in in_handlers:
+                    v = getattr(st, "value", None)
+                    if not (isinstance(st, ast.Assign) and isinstance(v, ast.Constant) and v.value is True):
+                        res.add(Finding("C06", "SIB.unexpected-flag-not-monotone", m.rel, m.qualname(fn), norm(st)[:100],
+                                        f"`{norm(st)[:80]}`: the flag that remembers an unexpected (non-LoadError) exception can be cleared by a "
+                                        "later item; the group is then raised as AggregateLoadError, which an enclosing Union / model in "
+                                        "ALL mode treats as an ordinary mismatch -- ALL accepts through the next case what DISABLE and "
+                                        "FIRST reject with the unexpected exception", st.lineno))
+    res.count("SIB.unexpected-flags", n, 3)
+
+
+def _ancestors(m, node, stop):
+    p = m.parent(node)
+    while p is not None and p is not stop:
+        yield p
+        p = m.parent(p)
